@@ -14,7 +14,7 @@ LEAN_MODULES = ["Props.C20"]
 RULE = (
     "case = (register type with 0-5 user-defined properties over mixed field kinds, names chosen to sort before / "
     "between / after the framework's own property names (in about a third of the cases a caller first edits IN PLACE the lists that custom_properties handed out earlier - remove / append / clear / reverse / sort / overwrite - for the type asked for or for every type: what the library hands out is the caller's to change and leaves nothing behind); a subclass, a second subclass that adds a property of its own and overrides the first inherited one, and an unrelated type (in four cases out of ten the views of the other types are asked for first); a file with 0-10 "
-    "registers of the type interleaved with other types and free-text lines; None in any position; in four cases out of ten the file held 1-3 MORE registers earlier - fresh ones or value-for-value copies of registers that stay - which were taken out again with RegisterData.remove after the view / of_type / get_registers_of_type had been asked: the view follows the registers the file holds NOW, whatever was there or was asked before; in four cases out of ten the file object belongs to a DERIVED file class whose REGISTERS / VERSIONS tables list some of the types - the types carry identifiers, several of them the same one, as the layouts of one record in different versions do - and the class is switched with set_version, or its REGISTERS re-assigned, after the object was built and between the views: the view is taken from the registers THE FILE OBJECT holds and from the type asked for, whatever the class's tables list at that moment). Observed on the "
+    "registers of the type interleaved with other types and free-text lines; None in any position; in four cases out of ten the file held 1-3 MORE registers earlier - fresh ones or value-for-value copies of registers that stay - which were taken out again with RegisterData.remove after the view / of_type / get_registers_of_type had been asked: the view follows the registers the file holds NOW, whatever was there or was asked before; in four cases out of ten the file object belongs to a DERIVED file class whose REGISTERS / VERSIONS tables list some of the types - the types carry identifiers, several of them the same one, as the layouts of one record in different versions do - and the class is switched with set_version, or its REGISTERS re-assigned, after the object was built and between the views: the view is taken from the registers THE FILE OBJECT holds and from the type asked for, whatever the class's tables list at that moment; in four cases out of ten some of the types REFINE one to three of the framework's own properties - their own empty, data with a validating setter, is_first / is_last / next / previous / custom_properties defined again on top of the framework's - on the type itself, inherited from its parent, or on another type of the file: a framework name stays the framework's whoever defines it, and is never a column). Observed on the "
     "real code: Register.custom_properties, list(df.columns), df.shape[0], every cell (null-aware, numbers as "
     "doubles), and - after overwriting every cell of the frame - whether the registers' data is unchanged. Judged by "
     "Spec.C20.holds (columns = sorted user properties without the framework's; one row per register of the type in "
@@ -54,15 +54,21 @@ def build(case):
         v = ids.get(str(i))
         return {} if v is None else {"IDENTIFIER": v, "IDENTIFIER_DIGITS": len(v)}
 
-    ns = {"__slots__": [], **ident(0)}
+    ref = case.get("refine") or {}
+
+    def refined(i):
+        # the framework properties this type defines again (see refinements)
+        return refinements(Register, ref.get("names", [])) if i in ref.get("on", []) else {}
+
+    ns = {"__slots__": [], **ident(0), **refined(0)}
     for name, idx in case["props"]:
         ns[codec.dec_str(name)] = mkprop(idx)
     K0 = type("K0", (Register,), ns)
-    K1 = type("K1", (K0,), {"__slots__": [], **ident(1)})
-    K2 = type("K2", (Register,), {"__slots__": [], "other": mkprop(0), **ident(2)})
+    K1 = type("K1", (K0,), {"__slots__": [], **ident(1), **refined(1)})
+    K2 = type("K2", (Register,), {"__slots__": [], "other": mkprop(0), **ident(2), **refined(2)})
     # K4 adds a property and OVERRIDES the first inherited one (a newer layout of the same record keeps the
     # value somewhere else): in every view a register shows what ITS OWN property gives
-    k4 = {"__slots__": [], OWN: mkprop(1), **ident(4)}
+    k4 = {"__slots__": [], OWN: mkprop(1), **ident(4), **refined(4)}
     if case["props"]:
         k4[codec.dec_str(case["props"][0][0])] = mkprop(OVERRIDE_INDEX)
     K4 = type("K4", (K0,), k4)
@@ -124,6 +130,34 @@ def build(case):
                 ask(f, t, asked)
             data.remove(r)
     return classes, f, final
+
+
+FRAMEWORK_NAMES = ["data", "empty", "is_first", "is_last", "next", "previous", "custom_properties"]
+
+
+def refinements(base, names):
+    """a register type's own definitions of framework properties, each built on the framework's: the record
+    behaves in a file as before (its own notion of `empty`, a `data` that validates what it is given, ...)"""
+
+    def fw(n):
+        return getattr(base, n)
+
+    def checked_data(self, d):
+        if not isinstance(d, (list, str, bytes)):
+            raise TypeError("data of a register is a list of values")
+        fw("data").fset(self, d)
+
+    own = {
+        "data": property(lambda self: fw("data").fget(self), checked_data),
+        # a record without its first value is not worth writing
+        "empty": property(lambda self: fw("empty").fget(self) or fw("data").fget(self)[:1] in ([None], "")),
+        "is_first": property(lambda self: fw("previous").fget(self) is None),
+        "is_last": property(lambda self: fw("next").fget(self) is None),
+        "next": property(lambda self: fw("next").fget(self), lambda self, b: fw("next").fset(self, b)),
+        "previous": property(lambda self: fw("previous").fget(self), lambda self, b: fw("previous").fset(self, b)),
+        "custom_properties": property(lambda self: list(fw("custom_properties").fget(self))),
+    }
+    return {n: own[n] for n in names if n in own}
 
 
 def select(fc, how, classes):
@@ -345,6 +379,8 @@ def features(case, obs):
         f.append(f"registers_removed_earlier={len(case['gone']['regs'])}/asked={case['gone'].get('asked')}")
     if case.get("tables"):
         f.append(f"file_class_tables/select={sum(1 for x in case['tables'].get('select', []) if x is not None)}")
+    if case.get("refine"):
+        f.append(f"framework_properties_refined={len(case['refine']['names'])}/on={case['refine']['on']}")
     if isinstance(obs, dict) and "nrows" in obs:
         f.append("empty_view" if obs["nrows"] == 0 else "non_empty_view")
     return f
@@ -421,6 +457,11 @@ def random_case(rng):
     r2 = random.Random("tables:" + json.dumps(case, sort_keys=True))
     if r2.random() < 0.4:
         case["tables"] = random_tables(r2)
+    # a separate stream for the types that refine framework properties: the draws above stay what they were
+    r3 = random.Random("refine:" + json.dumps(case, sort_keys=True))
+    if r3.random() < 0.4:
+        on = r3.choice([[0], [0], [t if t != 3 else 0], [4], [1], [2], [0, 4], [0, 1, 2, 4]])
+        case["refine"] = {"names": r3.sample(FRAMEWORK_NAMES, r3.randrange(1, 4)), "on": on}
     return case
 
 
@@ -505,6 +546,13 @@ def shrinks(case):
         for k in tb["ids"]:
             if tb["ids"][k] is not None and k != "0":
                 yield {**case, "tables": {**tb, "ids": {**tb["ids"], k: None}}}
+    rf = case.get("refine")
+    if rf:
+        yield {k: v for k, v in case.items() if k != "refine"}
+        for key in ("names", "on"):
+            if len(rf[key]) > 1:
+                for i in range(len(rf[key])):
+                    yield {**case, "refine": {**rf, key: rf[key][:i] + rf[key][i + 1 :]}}
     if case.get("edit"):
         yield {k: v for k, v in case.items() if k != "edit"}
         if case["edit"]["who"] == "all":
